@@ -472,8 +472,8 @@ def tagged(R, b, v, bs, sk, sp):
             R.bad("C10.TAGMISSING", body, "an absent tag is reported as missing field %s" % fmt(k), b.span)
         if s.handling != "collapsed":
             R.bad("C10.TAGMISSING", body, "an absent tag does not end the call", b.span)
-        # the closure is the ok_or_else of the remove
-        okc = False
+        # the closure is the ok_or_else of the remove (or the report sits on the None edge of a match on the removed entry)
+        okc = tg.get("missing_form") == "match"
         for bb, c in v.calls():
             if c.fn is not None and c.base() == "std::option::Option::ok_or_else":
                 tt = v.origin_call(bb)
